@@ -27,18 +27,18 @@ def run_one(d):
     try:
         subprocess.check_call(['rsync', '-a', '--exclude', '.git', '/repo/', tmp + '/'])
         shutil.copy(os.path.join(MUT, d, 'file.go'), os.path.join(tmp, m['File']))
-        b = subprocess.run(['go', 'build', './...'], cwd=tmp, env=ENV, capture_output=True, text=True)
+        b = subprocess.run(['go', 'build', './...'], cwd=tmp, env=ENV, capture_output=True, text=True, errors='replace')
         if b.returncode != 0:
             res['result'] = 'does-not-compile'; return res
         pkg = './' + os.path.dirname(m['File'])
-        t = subprocess.run(['go', 'test', '-vet=off', '-count=1', '-timeout', '120s', './store', './sasl'], cwd=tmp, env=ENV, capture_output=True, text=True)
+        t = subprocess.run(['go', 'test', '-vet=off', '-count=1', '-timeout', '120s', './store', './sasl'], cwd=tmp, env=ENV, capture_output=True, text=True, errors='replace')
         if t.returncode != 0:
             res['result'] = 'killed-by-suite'; return res
         props = PROPS.get(m['Func'], [])
         res['props'] = props
         for p in props:
             work = tempfile.mkdtemp(prefix='govc-mut-work-')
-            r = subprocess.run(['/verif/bin/govc', '-repo', tmp, '-no-evidence', '-no-replay', '-work', work, '-prop', p], env=ENV, capture_output=True, text=True)
+            r = subprocess.run(['/verif/bin/govc', '-repo', tmp, '-no-evidence', '-no-replay', '-work', work, '-prop', p], env=ENV, capture_output=True, text=True, errors='replace')
             shutil.rmtree(work, ignore_errors=True)
             if r.returncode != 0:
                 failed = [l.strip()[1:].split(': ')[0] for l in r.stdout.split('\n') if l.startswith('   [')]
